@@ -1,6 +1,6 @@
 """Imports a seeded change from its scratch worktree into /verif/seeded/<id>/ and verifies it.
 
-usage: tools_seed_import.py <ID> "<what it needs to manifest>"
+usage: tools_seed_import.py <ID> "<what it needs to manifest>" [round]
 Checks: patch applies to /repo HEAD (on a scratch copy), demo passes without / fails with the
 change, and the touched modules' tests (and optionally the full suite, FULL=1) pass with it.
 """
@@ -11,8 +11,9 @@ def run(cmd, **kw):
 
 def main():
   pid, needs = sys.argv[1], sys.argv[2]
-  wt = f'/tmp/seed-{pid}'
-  out = f'/verif/seeded/{pid}'
+  rnd = sys.argv[3] if len(sys.argv) > 3 else ''      # '' first round, '2' second round ...
+  wt = f'/tmp/seed{rnd}-{pid}'
+  out = f'/verif/seeded/{pid}' + ({'': '', '2': 'b', '3': 'c'}[rnd])
   os.makedirs(out, exist_ok=True)
   diff = run(['git', '-C', wt, 'diff', '--', 'ml_metrics']).stdout
   open(f'{out}/patch.diff', 'w').write(diff)
